@@ -3,6 +3,8 @@ package c11
 import (
 	"encoding/json"
 	"fmt"
+	"hash/adler32"
+	"hash/crc32"
 	"hash/fnv"
 	"net/http"
 	"net/url"
@@ -83,6 +85,9 @@ type Req struct {
 	FailW   bool   `json:"fail_write,omitempty"`  // client write error on this request
 	Slow    bool   `json:"slow_client,omitempty"` // slow client: the server task parks in every body write
 	Head    bool   `json:"head,omitempty"`        // sent as HEAD if the handler is a GET route
+	// Z: an extra query parameter z=<Z>. The collision adversary chooses the Z of two requests so that their query
+	// strings (or request URIs) are different strings with the SAME value under a common 32-bit string hash.
+	Z string `json:"z,omitempty"`
 }
 
 type W struct {
@@ -96,6 +101,8 @@ type W struct {
 	// OnFormatAt: 0 no custom formatter; 1 registered before all routes; 2 after the first route
 	// (routes registered earlier keep the default envelope)
 	OnFormatAt int `json:"on_format_at,omitempty"`
+	// Collide: "<hash>/<query|uri>": pairs of requests (0,1), (2,3), … carry z parameters chosen by the collision adversary
+	Collide string `json:"collide,omitempty"`
 }
 
 // accessors: how a handler reads the request parameter that identifies its request
@@ -209,6 +216,20 @@ func gen(r *verifsim.Rng, tier string) (any, hx.Sched) {
 		q.Head = r.Intn(8) == 0
 		q.Slow = r.Intn(3) == 0 || (w.Handlers[q.H].File > 0 && r.Intn(2) == 0)
 		w.Reqs = append(w.Reqs, q)
+	}
+	if !depthRun && nr >= 2 && r.Intn(12) == 0 {
+		hn := verifsim.Pick(r, hashNames)
+		w.Collide = hn + verifsim.Pick(r, []string{"/query", "/query", "/uri"})
+		for i := 0; i+1 < nr; i += 2 {
+			pa, pb := targetPrefix(w, w.Reqs[i])+"&z=", targetPrefix(w, w.Reqs[i+1])+"&z="
+			if strings.HasSuffix(w.Collide, "/query") {
+				_, pa, _ = strings.Cut(pa, "?")
+				_, pb, _ = strings.Cut(pb, "?")
+			}
+			if za, zb, ok := collide(r, hash32[hn], pa, pb); ok {
+				w.Reqs[i].Z, w.Reqs[i+1].Z = za, zb
+			}
+		}
 	}
 	// faults: at most one aborted and one write-failed request per run, in a subset of runs
 	if depthRun {
@@ -431,12 +452,76 @@ $server = new Server('127.0.0.1', 0);
 	return main.String(), files
 }
 
-func request(w *W, i int) *http.Request {
-	q := w.Reqs[i]
-	hd := w.Handlers[q.H]
+func targetPrefix(w *W, q Req) string {
 	target := fmt.Sprintf("/h%d/id%s?x=%s&k=%d", q.H, q.X, q.X, q.K)
 	if w.Annot {
 		target = "/a" + target
+	}
+	return target
+}
+
+// The collision adversary. Whatever the server remembers per request string under a short hash (a memo of parsed
+// queries, a routing cache) must still tell two requests apart when their strings collide: it picks the free
+// parameter z of two requests by a birthday search so that the two query strings (or the two request URIs)
+// are different and hash alike. 2 x 130000 candidates give a 32-bit collision with probability > 0.98.
+var hash32 = map[string]func(string) uint32{
+	"fnv1a": func(s string) uint32 { h := fnv.New32a(); h.Write([]byte(s)); return h.Sum32() },
+	"fnv1":  func(s string) uint32 { h := fnv.New32(); h.Write([]byte(s)); return h.Sum32() },
+	"crc32": func(s string) uint32 { return crc32.ChecksumIEEE([]byte(s)) },
+	"crc32c": func(s string) uint32 {
+		return crc32.Checksum([]byte(s), crc32cTable)
+	},
+	"adler32": func(s string) uint32 { return adler32.Checksum([]byte(s)) },
+	"times31": func(s string) uint32 { // Java's String.hashCode
+		var h uint32
+		for i := 0; i < len(s); i++ {
+			h = h*31 + uint32(s[i])
+		}
+		return h
+	},
+	"djb2": func(s string) uint32 {
+		h := uint32(5381)
+		for i := 0; i < len(s); i++ {
+			h = h*33 + uint32(s[i])
+		}
+		return h
+	},
+}
+
+var crc32cTable = crc32.MakeTable(crc32.Castagnoli)
+
+var hashNames = []string{"fnv1a", "fnv1a", "fnv1", "crc32", "crc32c", "adler32", "times31", "djb2"}
+
+// collide returns suffixes za, zb (no 'v': request identities are v<number>) with h(pa+za) == h(pb+zb).
+func collide(r *verifsim.Rng, h func(string) uint32, pa, pb string) (string, string, bool) {
+	const alpha = "abcdefghijklmnopqrstuwxyz0123456789"
+	suffix := func() string {
+		b := make([]byte, 9)
+		for i := range b {
+			b[i] = alpha[r.Intn(len(alpha))]
+		}
+		return string(b)
+	}
+	seen := make(map[uint32]string, 130000)
+	for i := 0; i < 130000; i++ {
+		z := suffix()
+		seen[h(pa+z)] = z
+	}
+	for i := 0; i < 400000; i++ {
+		z := suffix()
+		if za, ok := seen[h(pb+z)]; ok {
+			return za, z, true
+		}
+	}
+	return "", "", false
+}
+
+func request(w *W, i int) *http.Request {
+	q := w.Reqs[i]
+	hd := w.Handlers[q.H]
+	target := targetPrefix(w, q)
+	if q.Z != "" {
+		target += "&z=" + q.Z
 	}
 	var form url.Values
 	method := strings.ToUpper(hd.Method)
